@@ -17,7 +17,7 @@ ID = "C06"
 LEVEL = "exploration"
 RULE = (
     "Hypothesis draws pairs of basis sets (1..5 centres incl. coincident and far-apart ones so "
-    "that screening triggers, l=0..7 Cartesian, 2..7 pure, 1..6 primitives, exponents 1e-2..1e5, "
+    "that screening triggers, l=0..7 Cartesian, 2..7 pure, 1..6 primitives (listed by descending, ascending or shuffled exponent), exponents 1e-2..1e5, "
     "generalized contractions, random conventions with sign flips). Oracle O = Obara-Saika "
     "recurrence (float64 and 40-digit mpmath), in the documented screening mode; metamorphic "
     "relations (symmetry, PSD up to the screening bound, swap=transpose, translation, convention "
@@ -52,6 +52,7 @@ def basis_strategy(max_nbasis):
         conv_choices=("random", "random", "HORTON2", "CCA", "fchk", "molden"),
         exp_range=(-2.0, 5.0),
         max_nbasis=max_nbasis,
+        prim_orders=True,
     )
 
 
